@@ -1,0 +1,17 @@
+//go:build verif
+// +build verif
+
+package telegram
+
+import "github.com/xelaj/mtproto/telegram/internal/srp"
+
+// VerifSRPAnswer (build tag verif) computes the SRP answer like GetInputCheckPassword does, but with the
+// client ephemeral secret supplied by the caller, so that the conformance harness in /verif can force
+// value-dependent corners (A or S with leading zero bytes) deterministically.
+func VerifSRPAnswer(password string, srpB, salt1, salt2 []byte, g int32, p, random []byte) (ga, m1 []byte, err error) {
+	res, err := srp.VerifGetInputCheckPassword(password, srpB, &srp.ModPow{Salt1: salt1, Salt2: salt2, G: g, P: p}, random)
+	if err != nil || res == nil {
+		return nil, nil, err
+	}
+	return res.GA, res.M1, nil
+}
